@@ -27,6 +27,15 @@ RULES = {
 
 
 def run(ck, m):
+    _run16(ck, m)
+    from nl import alias as _alias
+    ck.rule('C16.f', 'the log decodes to what was logged (C12.a, repeated): the retry after a rotation writes the same record as the first '
+                     'attempt, field by field — a record with db id and key id swapped decodes, after the restart that kept the log, to another '
+                     'database and key')
+    _alias.repeat(ck, m, 'C12', ('C12.a',), 'C16.f', key_filter=lambda k: 'retry-writes-the-same-record' in k)
+
+
+def _run16(ck, m):
     for k, v in RULES.items():
         ck.rule(k, v)
     P = m.prog
@@ -342,6 +351,24 @@ def run(ck, m):
                 if any(k.startswith('literal:') and k != 'literal:0' for k in kinds):
                     why += ': every database loaded by this strategy shares one id'
                 ck.ob('C16.d', short(b.id), 'db-id-origin:%s' % '+'.join(sorted(kinds)), ok, why, b.loc(bi))
+    # ... nor is the id of an existing metadata record overwritten: the id a database was created or LOADED with is the one its oplog
+    # records carry; re-numbering it where databases are registered (by position, by count) makes the log of the previous run decode to
+    # another database after the restart while the flag still says valid
+    for b in P.user_bodies():
+        if b.id.startswith(('nundb::client::', 'nundb::command_line::')):
+            continue
+        for bi, bl in enumerate(b.blocks):
+            if bl.get('cleanup'):
+                continue
+            for s_ in bl['s']:
+                if s_['k'] != 'assign' or not s_['l'].get('p'):
+                    continue
+                last = [e for e in s_['l']['p'] if e[0] == 'f'][-1:]
+                if last and last[0][3] == 'id' and str(last[0][2]).endswith('DatabaseMataData'):
+                    n += 1
+                    ck.ob('C16.d', short(b.id), 'db-id-overwritten', False,
+                          '%s assigns DatabaseMataData.id of an existing record (%s): a database loaded from disk loses the id its oplog records '
+                          'were written with — after a restart the kept log decodes to another database or to none' % (short(b.id), b.loc(bi)), b.loc(bi))
     ck.floor('C16.d', n, 5, 'database metadata constructions')
 
 
